@@ -323,6 +323,12 @@ def c10(ctx):
 @check("C11")
 def c11(ctx):
     model_check(ctx, "MCOptions.tla", "MCOptions.cfg")
+    # fast path = ladder, DH agreement and low-order outputs over small curves of edwards25519's shape, every point / u / scalar
+    model_check(ctx, "MCMontgomery.tla", "MCMontgomery_t.cfg" if ctx.thorough else "MCMontgomery.cfg", timeout=7200)
+    for neg, what in (("a24", "a ladder with (A+2)/4"), ("noswap", "a ladder without the final conditional swap")):
+        ok, _ = model_check(ctx, "MCMontgomery.tla", "MCMontgomery_neg_%s.cfg" % neg, expect_ok=False)
+        if ok:
+            raise Infra("model control failed: MCMontgomery accepts " + what)
     curve_family(ctx)
     finish(ctx, "X25519 on the base-point slice (fast path), a copy of 9 (generic), ScalarBaseMult and ScalarMult for scalars covering every nibble value at every position with neighbours 0/7/8/f, "
            "all unclamped variants of the low 3 / high 2 bits, 0, all-ones, L-1, L, 4L, random; generic points (known-dlog curve points, arbitrary u incl. twist, u >= p, bit 255 set), the 7 low-order points, "
